@@ -1,5 +1,16 @@
 """Which contract families decide which property, and at what claimed level."""
 PROPS = {
+    'C11': {
+        'families': ['contracts.refs'],
+        'level': 'proof',
+        'technique': 'contract-based deductive verification: nested loop invariants over the three signature levels, VCs from the real AST, z3/cvc5',
+        'text': 'Reference-rewrite postconditions of RenameModel.simulate and RenameAppLabel.simulate: after the rename no relation '
+                'anywhere in the project (all apps, all models, all fields) still names the old model / old app label, and the '
+                'renamed model is reachable under its new name only.',
+        'level_note': 'Trusted: pyvc engine/encoding; ModelSignature.clone as a deep-copy stub; add/remove_model_sig stubs. '
+                      'Not decided: database foreign keys after execution (SQLite is the oracle; see the bounded native scenarios).',
+        'not_decided': ['that database foreign keys point at the renamed table/column and PRAGMA foreign_key_check passes'],
+    },
     'C12': {
         'families': ['contracts.sigsim'],
         'level': 'proof',
